@@ -231,7 +231,7 @@ func apuGenOther(c *Ctx, w *trace.Writer) {
 	}
 	if c.Want("len") {
 		rng := c.Rand(1901)
-		count := 150
+		count := 400
 		if c.Thorough() {
 			count = 4000
 		}
